@@ -635,7 +635,7 @@ def lower_driver(src, outdir, tag, opt="-O2", extra=(), fast=False):
                                           "-DTFEL_NO_RUNTIME_CHECK_BOUNDS",
                                           src, "-o", ll] + list(extra)
     if fast:
-        cmd.insert(1, "-Ofast")
+        cmd[cmd.index(opt)] = "-Ofast"
     p = subprocess.run(cmd, capture_output=True, text=True)
     if p.returncode != 0:
         raise AnalysisBroken("driver %s does not compile against the current tree: %s" % (src, p.stderr[-3000:]))
